@@ -1602,9 +1602,13 @@ dialSuccess:
 	shard := p.shardFor(key)
 	shard.mu.Lock()
 	shard.pool[key] = ue
+	// Register while the table write is still locked: once the endpoint is
+	// visible, a failed write, an invalidation or Reset may close it, and a
+	// registration that comes after that Close's unregister would leave the
+	// closed endpoint in the dialer's bucket for good.
+	p.registerEndpoint(ue)
 	shard.mu.Unlock()
 	verifYield("create.afterPublish", ue)
-	p.registerEndpoint(ue)
 
 	// Receive UDP messages.
 	go ue.start()
